@@ -6,6 +6,8 @@ import (
 	"bytes"
 	"encoding/binary"
 	"fmt"
+	"io"
+	"strings"
 
 	"github.com/Eyevinn/mp4ff/aac"
 	"github.com/Eyevinn/mp4ff/bits"
@@ -75,6 +77,7 @@ type PackOpts struct {
 	AudioOnly       bool
 	BigSamples      bool
 	ManySamples     bool // a few single-track fragments hold 1000-1079 identical samples
+	EncodeBetween   bool // a fragment under construction may be encoded (and the bytes thrown away) between two additions
 	WriteFaults     bool // some segments are also written to a sink that refuses one write
 	EmsgOnly        bool // with Foreign off: emsg boxes may still precede a moof
 	LargeMdat       bool // some fragments write their mdat with the 64-bit size form (MdatBox.LargeSize)
@@ -400,6 +403,23 @@ func Package(r *sim.Run, o PackOpts) (*Production, error) {
 					}
 					left[ti]--
 					total--
+					if o.EncodeBetween && total > 0 && t.Chance(25) {
+						// the caller looks at the fragment so far (e.g. to publish a partial chunk) and goes on adding samples
+						frag.EncOptimize = seg.EncOptimize
+						if err := frag.Encode(io.Discard); err != nil {
+							return nil, fmt.Errorf("Fragment.Encode between additions: %w", err)
+						}
+						if !strings.Contains(fr.Mode, "/encoded-between") {
+							fr.Mode += "/encoded-between"
+						}
+						if sr.Optimize {
+							// recorded finding: trun optimisation at an encode is not revised when samples are added afterwards
+							r.ClassTag = ":samples-added-after-optimised-encode"
+							r.Probe("samples-added-after-optimised-encode")
+						}
+						r.Event("encode-between", ti)
+						r.Probe("fragment-encoded-between-additions")
+					}
 				case "meta":
 					anyMeta = true
 					k := 1
